@@ -72,7 +72,8 @@ def run(run, tier, seed):
                 "(thorough) observations of 3 full k-mers, min_count 1..4, with/without a hash collision: exact without "
                 "collision, added at the moment the count reaches the threshold, never lost for min_count<=2 (the general "
                 "'never lost' is REFUTED by TLC under a collision for min_count>=3: known finding K12); collision-free "
-                "behaviours replayed into the real KmerFilter on both strand modes. MC_SplitKmer quality config: every "
+                "behaviours replayed into the real KmerFilter on both strand modes; the exactness for any number of sightings is an "
+                "inductive invariant discharged by Apalache (KmerFilterInd, unbounded counters). MC_SplitKmer quality config: every "
                 "record over {A,N} x qualities {min-1,min,min+1} x 3 rules, iterator = declarative windows, replayed into "
                 "SplitKmer. traces: simulated read pairs (coverage 3-10, errors, N, both orientations, qualities at the "
                 "threshold, a quarter of the reads partly or wholly lower case), min-count 1..6, min-qual 0..40, 3 rules, all k, both strand modes, through `ska build -f` + "
@@ -85,6 +86,9 @@ def run(run, tier, seed):
     run.add_design(d)
     d2 = vlib.design_check("MC_SplitKmer", "MC_SplitKmer_qual", "c12-qual", workers=8, timeout=1800, want_replay=True)
     run.add_design(d2)
+    # the same exactness statement for ANY number of sightings: an inductive invariant discharged by Apalache
+    # (spec/apalache/KmerFilterInd.tla; MC_KmerFilter's SameStep ties its step to FilterStep)
+    run.extra["unbounded_inductive"] = vlib.apalache_inductive("KmerFilterInd")
     rep = d["replay"] + d2["replay"]
     verdicts = vlib.skav_parallel("replay", rep, jobs=12)
     run.replayed += len(verdicts)
